@@ -311,6 +311,9 @@ def eval_case(ctx, case):
 # ------------------------------------------------------------------------------------------- includes
 
 
+R_END = {"own-line": "<!-- END -->", "after-text": "tail <!-- END -->", "indented": "  <!-- END -->", "mid-line": "tail <!-- END --> more"}
+
+
 def build_include(case):
     """Main document with include directives; each included file carries its own markers with lines relative to itself."""
     g = G.Gen(random.Random(0))
@@ -330,13 +333,15 @@ def build_include(case):
         lo, hi = 0, len(lines)
         kind = inc["opt"]
         pre = [f"skipped line {k}" for k in range(inc.get("pre", 0))]
+        # where the start marker sits on its line (the text after it on that line is the first included line)
+        start_marker = {"own-line": "<!-- START -->", "after-text": "lead text <!-- START -->", "indented": "  <!-- START -->", "mid-line": "lead <!-- START --> trailing words"}[inc.get("marker", "own-line")]
         if kind == "start-line":
             lines = pre + [""] + lines
             ff.shifted(len(pre) + 1)
             opts = [f":start-line: {len(pre) + 1}"]
             lo = len(pre) + 1
         elif kind == "start-after":
-            lines = pre + ["<!-- START -->", ""] + lines
+            lines = pre + [start_marker, ""] + lines
             ff.shifted(len(pre) + 2)
             opts = [":start-after: <!-- START -->"]
         elif kind == "end-before":
@@ -348,7 +353,7 @@ def build_include(case):
         elif kind == "heading-offset":
             opts = [":heading-offset: 1"]
         elif kind == "both":
-            lines = pre + ["<!-- START -->", ""] + lines + ["", "<!-- END -->", "dropped"]
+            lines = pre + [start_marker, ""] + lines + ["", R_END[inc.get("marker", "own-line")], "dropped"]
             ff.shifted(len(pre) + 2)
             opts = [":start-after: <!-- START -->", ":end-before: <!-- END -->"]
         nested = inc.get("nested") and kind in ("plain", "start-line", "start-after", "heading-offset")
@@ -423,7 +428,7 @@ def run_shard(ctx):
         incs = []
         for _ in range(R.randint(1, 3)):
             incs.append({"opt": R.choice(["plain", "plain", "start-line", "end-line", "start-after", "end-before", "heading-offset", "both"]), "nleaves": R.randint(1, 3), "leaves": [R.choice(["para", "heading", "fence", "list", "target"]) for _ in range(3)],
-                         "pre": R.randint(0, 3), "nested": R.random() < 0.2, "final_nl": R.random() < 0.8, "chain": [R.choice(cs) for _ in range(R.choice([0, 0, 1, 2]))]})
+                         "pre": R.randint(0, 3), "marker": R.choice(["own-line", "own-line", "after-text", "indented", "mid-line"]), "nested": R.random() < 0.2, "final_nl": R.random() < 0.8, "chain": [R.choice(cs) for _ in range(R.choice([0, 0, 1, 2]))]})
         case = {"kind": "include", "includes": incs}
         eval_case(ctx, case)
         ctx.case(("include", repr(case)), True)
